@@ -430,6 +430,29 @@ def analysis_block():
     return "Definition ext_analysis_skeleton : str :=\n  " + coq_str(skels[0]) + ".\n"
 
 
+# ---------------------------------------------------------------- the processing order of rules (C05, C11)
+def rule_order():
+    """impl Ord for Rule (api/rule.rs) as a list of (field, descending) keys; Route::cmp must delegate to the handler and
+    Action::from_routes_rule must sort the routes before anything else."""
+    src = read("src/api/rule.rs")
+    m = re.search(r"impl Ord for Rule \{\n    fn cmp\(&self, other: &Self\) -> Ordering \{\n(.*?)\n    \}\n\}", src, re.S)
+    if not m:
+        raise TranslatorError("api/rule.rs: impl Ord for Rule not found")
+    body = m.group(1)
+    mm = re.fullmatch(r"\s*let order_on_rank = (other|self)\.rank\.cmp\(&(other|self)\.rank\);\n\n\s*if order_on_rank != Ordering::Equal \{\n\s*return order_on_rank;\n\s*\}\n\n\s*(other|self)\.id\.cmp\(&(other|self)\.id\)", body)
+    if not mm or mm.group(1) == mm.group(2) or mm.group(3) == mm.group(4):
+        raise TranslatorError("api/rule.rs: Rule::cmp no longer has the shape 'rank, then id' the action model transcribes")
+    keys = [("rank", mm.group(1) == "other"), ("id", mm.group(3) == "other")]
+    src = read("src/router/route.rs")
+    if not re.search(r"fn cmp\(&self, other: &Self\) -> Ordering \{\n\s*self\.handler\.cmp\(&other\.handler\)\n\s*\}", src):
+        raise TranslatorError("router/route.rs: Route::cmp no longer delegates to the handler")
+    src = read("src/action/mod.rs")
+    if not re.search(r"pub fn from_routes_rule\(mut routes: Vec<Arc<Route<Rule>>>, request: &Request, mut unit_trace: Option<&mut UnitTrace>\) -> Action \{\n\s*let mut action = Action::default\(\);\n\s*routes\.sort\(\);\n\n\s*for route in routes \{", src):
+        raise TranslatorError("action/mod.rs: from_routes_rule no longer sorts the whole list of routes before folding it")
+    return ("Definition ext_rule_order : list (str * bool) :=\n  [" +
+            "; ".join(f"({coq_str(k)}, {'true' if d else 'false'})" for k, d in keys) + "].\n")
+
+
 SECTIONS = [
     ("Headers", ["RIO.Headers"], header_action_table),
     ("Encodings", [], supported_encodings),
@@ -437,6 +460,7 @@ SECTIONS = [
     ("PanicSites", [], panic_sites_section),
     ("Tables", [], tables_section),
     ("Analysis", [], analysis_block),
+    ("RuleOrder", [], rule_order),
 ]
 
 
